@@ -733,6 +733,9 @@ impl FinishedSession {
                 || self
                     .base_generation
                     .map_or(false, |g| g != shared.generation)
+                || !self
+                    .parent_overlay
+                    .parent_matches_marker(shared.last_commit_marker.as_ref())
             {
                 anyhow::bail!(
                     "Changeset no longer valid (expected previous root {:?}, got {:?})",
@@ -797,6 +800,9 @@ impl FinishedSession {
                 || self
                     .base_generation
                     .map_or(false, |g| g != shared.generation)
+                || !self
+                    .parent_overlay
+                    .parent_matches_marker(shared.last_commit_marker.as_ref())
             {
                 anyhow::bail!(
                     "Changeset no longer valid (expected previous root {:?}, got {:?})",
@@ -829,6 +835,9 @@ impl FinishedSession {
                 || self
                     .base_generation
                     .map_or(false, |g| g != shared.generation)
+                || !self
+                    .parent_overlay
+                    .parent_matches_marker(shared.last_commit_marker.as_ref())
             {
                 anyhow::bail!(
                     "Changeset no longer valid (expected previous root {:?}, got {:?})",
